@@ -550,10 +550,9 @@ theorem tinv_step {s s' : TransportConn.State} {e : TransportConn.Event}
               refine ⟨hid, by simp; omega, ?_⟩
               simp [TransportConn.upd]
         · cases h
-      · next x rest hs =>
-        simp only [Option.some.injEq] at h; subst h
-        exact upd_case cid { s.conns cid with st := .finished true, stream := rest, consumed := (s.conns cid).consumed + 1 } _
-          (by simp) (by intro _; simp; omega) (by simp) (by simp) (old_deliveries cid _ (by simp)) _ _
+      · simp only [Option.some.injEq] at h; subst h
+        exact upd_case cid { s.conns cid with st := .finished true, written := (s.conns cid).written - 1 } _
+          (by simp) (by intro _; simp; omega) (by simp) (Nat.le_refl _) (old_deliveries cid _ (Nat.le_refl _)) _ _
       · simp only [Option.some.injEq] at h; subst h
         exact upd_case cid { s.conns cid with st := .finished false } _ (by simp) (by simp [settled]) (by simp) (Nat.le_refl _)
           (old_deliveries cid _ (Nat.le_refl _)) _ _
